@@ -3,9 +3,15 @@
   `Index.importScan`): "iterate until no new module turns up", with `processed_files` as the only
   guard.  Import graphs may be cyclic, so the loop is not obviously finite.
 
-  The theorem: every round that does not stop moves at least one file of the universe (the files
-  to check at the start, the files on disk, the files cached) into `processed`; hence the loop makes
-  at most (unprocessed universe + 1) rounds, and any larger fuel gives the same result.
+  Since the repair that made plugin status independent of the visiting order, a file whose imports
+  were walked before it became a plugin file is taken out of `processed_files` again and walked
+  once more - so `processed` no longer only grows.
+
+  The theorem: give every file of the universe (the files to check at the start, the files on
+  disk, the files cached) the weight (1 if unprocessed) + (2 if not a plugin file).  No step raises
+  any file's weight - un-processing a file happens only together with marking it as a plugin file,
+  2 down and 1 up - and every round that does not stop lowers the weight of at least one file.  Hence
+  the loop makes at most (3 x universe + 1) rounds, and any larger fuel gives the same result.
 -/
 import PLS.Model.Scan
 import PLS.Props.C12I
@@ -84,42 +90,83 @@ theorem resolveModule_exists (st : Index) (m : String) (f t : Path) (h : st.reso
 
 /-! ### one round -/
 
-abbrev Acc3 := List Path × List Path × Index
-abbrev Acc4 := List Path × List Path × Index × List Path
-
 /-- files the scan can ever meet: a fixed list `U` containing the disk and the cache -/
 structure Good (U : List Path) (st0 st : Index) : Prop where
   disk : st.disk = st0.disk
   cacheU : ∀ k, ahas st.cache k = true → k ∈ U
   diskU : ∀ k, ahas st.disk k = true → k ∈ U
 
-def P3 (U : List Path) (st0 : Index) (acc : Acc3) : Prop :=
-  Good U st0 acc.2.2 ∧ ∀ t, t ∈ acc.1 → t ∈ U
+def PA (U : List Path) (st0 : Index) (acc : ScanAcc) : Prop :=
+  Good U st0 acc.st ∧ (∀ t, t ∈ acc.news → t ∈ U) ∧ (∀ t, t ∈ acc.rewalk → t ∈ U)
 
-theorem importStep_fields (processed : List Path) (mark : Bool) (acc : Acc3) (t : Path) :
-    (importStep processed mark acc t).2.2.disk = acc.2.2.disk ∧
-    (importStep processed mark acc t).2.2.cache = acc.2.2.cache ∧
-    ((importStep processed mark acc t).1 = acc.1 ∨ (importStep processed mark acc t).1 = acc.1 ++ [t]) := by
+/-- the weight of one file: 1 while unprocessed, 2 while not a plugin file -/
+def w (processed plugin : List Path) (g : Path) : Nat :=
+  (if processed.contains g then 0 else 1) + (if plugin.contains g then 0 else 2)
+
+def wA (acc : ScanAcc) (g : Path) : Nat := w acc.processed acc.st.pluginFiles g
+
+def mu (U processed plugin : List Path) : Nat := (U.map (w processed plugin)).sum
+
+theorem sum_le {α} (U : List α) (f h : α → Nat) (hle : ∀ g ∈ U, f g ≤ h g) : (U.map f).sum ≤ (U.map h).sum := by
+  induction U with
+  | nil => simp
+  | cons a U ih =>
+    simp only [List.map_cons, List.sum_cons]
+    have := hle a List.mem_cons_self
+    have := ih (fun g hg => hle g (List.mem_cons_of_mem _ hg))
+    omega
+
+theorem sum_lt {α} (U : List α) (f h : α → Nat) (hle : ∀ g ∈ U, f g ≤ h g) (x : α) (hx : x ∈ U) (hlt : f x < h x) :
+    (U.map f).sum < (U.map h).sum := by
+  induction U with
+  | nil => cases hx
+  | cons a U ih =>
+    simp only [List.map_cons, List.sum_cons]
+    have ha := hle a List.mem_cons_self
+    have hU := sum_le U f h (fun g hg => hle g (List.mem_cons_of_mem _ hg))
+    rcases List.mem_cons.mp hx with rfl | hxU
+    · omega
+    · have := ih (fun g hg => hle g (List.mem_cons_of_mem _ hg)) hxU
+      omega
+
+theorem w_le_three (processed plugin : List Path) (g : Path) : w processed plugin g ≤ 3 := by
+  unfold w; split <;> split <;> omega
+
+theorem mu_le (U processed plugin : List Path) : mu U processed plugin ≤ 3 * U.length := by
+  unfold mu
+  induction U with
+  | nil => simp
+  | cons a U ih =>
+    simp only [List.map_cons, List.sum_cons, List.length_cons]
+    have := w_le_three processed plugin a
+    omega
+
+theorem ite_or {α} (c : Prop) [Decidable c] (a b : α) :
+    (if c then b else a) = a ∨ (if c then b else a) = b := by
+  split
+  · exact Or.inr rfl
+  · exact Or.inl rfl
+
+theorem importStep_fields (mark : Bool) (acc : ScanAcc) (t : Path) :
+    (importStep mark acc t).st.disk = acc.st.disk ∧
+    (importStep mark acc t).st.cache = acc.st.cache ∧
+    ((importStep mark acc t).news = acc.news ∨ (importStep mark acc t).news = acc.news ++ [t]) ∧
+    ((importStep mark acc t).rewalk = acc.rewalk ∨ (importStep mark acc t).rewalk = acc.rewalk ++ [t]) := by
   unfold importStep
   simp only
-  refine ⟨?_, ?_, ?_⟩
-  · by_cases h : (mark && !acc.2.2.pluginFiles.contains t) = true
-    · simp only [h, if_true]
-    · simp only [h]; rfl
-  · by_cases h : (mark && !acc.2.2.pluginFiles.contains t) = true
-    · simp only [h, if_true]
-    · simp only [h]; rfl
-  · by_cases h2 : (!processed.contains t && !ahas acc.2.2.cache t && !acc.1.contains t) = true
-    · right; simp only [h2, if_true]
-    · left; simp only [h2]; rfl
+  refine ⟨?_, ?_, ?_, ?_⟩
+  · split <;> rfl
+  · split <;> rfl
+  · exact ite_or _ _ _
+  · exact ite_or _ _ _
 
-theorem importStep_P3 (U : List Path) (st0 : Index) (processed : List Path) (mark : Bool) (acc : Acc3) (t : Path)
-    (ht : t ∈ U) (h : P3 U st0 acc) : P3 U st0 (importStep processed mark acc t) := by
-  obtain ⟨⟨hd, hc, hdu⟩, hn⟩ := h
-  obtain ⟨f1, f2, f3⟩ := importStep_fields processed mark acc t
-  refine ⟨⟨f1.trans hd, ?_, ?_⟩, ?_⟩
-  · intro k hk; rw [f2] at hk; exact hc k hk
-  · intro k hk; rw [f1] at hk; exact hdu k hk
+theorem importStep_PA (U : List Path) (st0 : Index) (mark : Bool) (acc : ScanAcc) (t : Path)
+    (ht : t ∈ U) (h : PA U st0 acc) : PA U st0 (importStep mark acc t) := by
+  obtain ⟨hg, hn, hr⟩ := h
+  obtain ⟨f1, f2, f3, f4⟩ := importStep_fields mark acc t
+  refine ⟨⟨f1.trans hg.disk, ?_, ?_⟩, ?_, ?_⟩
+  · intro k hk; rw [f2] at hk; exact hg.cacheU k hk
+  · intro k hk; rw [f1] at hk; exact hg.diskU k hk
   · intro x hx
     rcases f3 with e | e
     · rw [e] at hx; exact hn x hx
@@ -127,78 +174,132 @@ theorem importStep_P3 (U : List Path) (st0 : Index) (processed : List Path) (mar
       rcases List.mem_append.mp hx with hx | hx
       · exact hn x hx
       · simp only [List.mem_singleton] at hx; subst hx; exact ht
+  · intro x hx
+    rcases f4 with e | e
+    · rw [e] at hx; exact hr x hx
+    · rw [e] at hx
+      rcases List.mem_append.mp hx with hx | hx
+      · exact hr x hx
+      · simp only [List.mem_singleton] at hx; subst hx; exact ht
 
-theorem importScanFile_P3 (U : List Path) (st0 st : Index) (processed : List Path) (f : Path) (acc : Acc3)
-    (h : P3 U st0 acc) : P3 U st0 (importScanFile st processed f acc) := by
+/-- **no import step raises a file's weight**: a file leaves `processed` only in the step that
+    makes it a plugin file -/
+theorem importStep_w (mark : Bool) (acc : ScanAcc) (t g : Path) :
+    wA (importStep mark acc t) g ≤ wA acc g := by
+  unfold wA importStep w
+  simp only
+  by_cases hm : (mark && !acc.st.pluginFiles.contains t) = true
+  · simp only [hm, if_true, Bool.true_and]
+    have htp : acc.st.pluginFiles.contains t = false := by
+      simp only [Bool.and_eq_true, Bool.not_eq_true'] at hm; exact hm.2
+    by_cases hg : g = t
+    · subst hg
+      have h1 : (acc.st.pluginFiles ++ [g]).contains g = true := by simp
+      by_cases hp : acc.processed.contains g = true
+      · simp only [hp, if_true, h1, htp, Bool.false_eq_true, if_false]
+        split <;> omega
+      · simp only [hp, Bool.false_eq_true, if_false, h1, if_true, htp]
+        omega
+    · have h1 : (acc.st.pluginFiles ++ [t]).contains g = acc.st.pluginFiles.contains g := by
+        simp only [List.contains_eq_mem, List.mem_append, List.mem_singleton, hg, or_false]
+      by_cases hp : acc.processed.contains t = true
+      · have h2 : (acc.processed.filter (fun x => x != t)).contains g = acc.processed.contains g := by
+          simp only [List.contains_eq_mem, List.mem_filter, bne_iff_ne, ne_eq, hg, not_false_eq_true, and_true]
+        simp only [hp, if_true, h1, h2]
+        omega
+      · simp only [hp, Bool.false_eq_true, if_false, h1]
+        omega
+  · simp only [hm, Bool.false_eq_true, if_false, Bool.false_and]
+    omega
+
+/-- the invariant carried through the walk of one file -/
+def Q (U : List Path) (st0 : Index) (acc0 acc : ScanAcc) : Prop :=
+  PA U st0 acc ∧ ∀ g, wA acc g ≤ wA acc0 g
+
+theorem importScanFile_Q (U : List Path) (st0 : Index) (f : Path) (acc0 acc : ScanAcc)
+    (h : Q U st0 acc0 acc) : Q U st0 acc0 (importScanFile f acc) := by
   unfold importScanFile
   split
-  · rename_i fr _ _
-    apply ImpT.foldl_inv (P3 U st0)
-    · apply ImpT.foldl_inv (P3 U st0) _ _ _ h
-      intro b a hb
-      split
-      · rename_i t ht
-        apply importStep_P3 U st0 _ _ _ _ _ hb
-        rcases resolveModule_exists b.2.2 _ _ t ht with h1 | h1
-        · exact hb.1.diskU t h1
-        · exact hb.1.cacheU t h1
-      · exact hb
-    · intro b a hb
-      split
-      · rename_i t ht
-        apply importStep_P3 U st0 _ _ _ _ _ hb
-        rcases resolveModule_exists b.2.2 _ _ t ht with h1 | h1
-        · exact hb.1.diskU t h1
-        · exact hb.1.cacheU t h1
-      · exact hb
+  · rename_i fr _ _ _
+    have step : ∀ (mark : Bool) (b : ScanAcc) (m : String), Q U st0 acc0 b →
+        Q U st0 acc0 (match b.st.resolveModule m f with | some t => importStep mark b t | none => b) := by
+      intro mark b m hb
+      cases hres : b.st.resolveModule m f with
+      | none => exact hb
+      | some t =>
+        have htU : t ∈ U := by
+          rcases resolveModule_exists b.st m f t hres with hd | hc
+          · exact hb.1.1.diskU t hd
+          · exact hb.1.1.cacheU t hc
+        exact ⟨importStep_PA U st0 mark b t htU hb.1,
+          fun g => Nat.le_trans (importStep_w mark b t g) (hb.2 g)⟩
+    apply ImpT.foldl_inv (Q U st0 acc0)
+    · apply ImpT.foldl_inv (Q U st0 acc0)
+      · exact h
+      · intro b imp hb; exact step _ b imp.modulePath hb
+    · intro b m hb; exact step _ b m hb
   · exact h
 
-/-- one file of one round of `importScan` -/
-def roundStep (acc : Acc4) (f : Path) : Acc4 :=
-  if acc.2.2.2.contains f then acc else
-  let processed := acc.2.2.2 ++ [f]
-  let r := importScanFile acc.2.2.1 processed f (acc.1, acc.2.1, acc.2.2.1)
-  (r.1, r.2.1, r.2.2, processed)
-
-def P4 (U : List Path) (st0 : Index) (proc0 : List Path) (acc : Acc4) : Prop :=
-  P3 U st0 (acc.1, acc.2.1, acc.2.2.1) ∧ (∀ x, x ∈ proc0 → x ∈ acc.2.2.2)
-
-theorem roundStep_P4 (U : List Path) (st0 : Index) (proc0 : List Path) (acc : Acc4) (f : Path)
-    (h : P4 U st0 proc0 acc) : P4 U st0 proc0 (roundStep acc f) := by
+theorem roundStep_Q (U : List Path) (st0 : Index) (acc0 acc : ScanAcc) (f : Path)
+    (h : Q U st0 acc0 acc) : Q U st0 acc0 (roundStep acc f) := by
   unfold roundStep
   split
   · exact h
-  · simp only
-    exact ⟨importScanFile_P3 U st0 acc.2.2.1 _ f _ h.1, fun x hx => List.mem_append_left _ (h.2 x hx)⟩
+  · apply importScanFile_Q
+    refine ⟨h.1, fun g => Nat.le_trans ?_ (h.2 g)⟩
+    unfold wA w
+    simp only
+    have : acc.processed.contains g = true → (acc.processed ++ [f]).contains g = true := by
+      intro hc; simp only [List.contains_eq_mem, List.mem_append, decide_eq_true_eq] at hc ⊢; exact Or.inl hc
+    by_cases hc : acc.processed.contains g = true
+    · simp only [this hc, hc, if_true]; omega
+    · simp only [hc, Bool.false_eq_true, if_false]; split <;> omega
 
-/-- after the round every file that was to be checked is processed -/
-theorem round_covers (toCheck : List Path) (acc : Acc4) :
-    (∀ x, x ∈ acc.2.2.2 → x ∈ (toCheck.foldl roundStep acc).2.2.2) ∧
-    (∀ f, f ∈ toCheck → f ∈ (toCheck.foldl roundStep acc).2.2.2) := by
-  induction toCheck generalizing acc with
-  | nil => exact ⟨fun x hx => hx, fun f hf => by cases hf⟩
+/-- processing a file lowers its weight, whatever its own imports do to it afterwards -/
+theorem roundStep_strict (U : List Path) (st0 : Index) (acc : ScanAcc) (f : Path)
+    (hpa : PA U st0 acc) (hf : acc.processed.contains f = false) : wA (roundStep acc f) f < wA acc f := by
+  unfold roundStep
+  simp only [hf, Bool.false_eq_true, if_false]
+  have hq : Q U st0 { acc with processed := acc.processed ++ [f] } { acc with processed := acc.processed ++ [f] } :=
+    ⟨hpa, fun g => Nat.le_refl _⟩
+  have := (importScanFile_Q U st0 f _ _ hq).2 f
+  apply Nat.lt_of_le_of_lt this
+  unfold wA w
+  simp only [hf, Bool.false_eq_true, if_false]
+  have : (acc.processed ++ [f]).contains f = true := by simp
+  simp only [this, if_true]
+  omega
+
+/-- a whole round: no weight rises, and the weight of some file of `U` falls when the round had
+    an unprocessed file to check -/
+theorem round_measure (U : List Path) (st0 : Index) (toCheck : List Path) (hT : ∀ x, x ∈ toCheck → x ∈ U) :
+    ∀ acc : ScanAcc, PA U st0 acc →
+      Q U st0 acc (toCheck.foldl roundStep acc) ∧
+      ((∃ f, f ∈ toCheck ∧ acc.processed.contains f = false) →
+        ∃ x, x ∈ U ∧ wA (toCheck.foldl roundStep acc) x < wA acc x) := by
+  induction toCheck with
+  | nil => intro acc hpa; exact ⟨⟨hpa, fun g => Nat.le_refl _⟩, fun ⟨f, hf, _⟩ => by cases hf⟩
   | cons a l ih =>
+    intro acc hpa
     simp only [List.foldl_cons]
-    obtain ⟨h1, h2⟩ := ih (roundStep acc a)
-    have hstep : ∀ x, x ∈ acc.2.2.2 → x ∈ (roundStep acc a).2.2.2 := by
-      intro x hx
-      unfold roundStep
-      split
-      · exact hx
-      · exact List.mem_append_left _ hx
-    have ha : a ∈ (roundStep acc a).2.2.2 := by
-      unfold roundStep
-      split
-      · rename_i hc; simpa using hc
-      · simp
-    refine ⟨fun x hx => h1 x (hstep x hx), ?_⟩
-    intro f hf
-    rcases List.mem_cons.mp hf with rfl | hf
-    · exact h1 f ha
-    · exact h2 f hf
+    have hq1 : Q U st0 acc (roundStep acc a) := roundStep_Q U st0 acc acc a ⟨hpa, fun g => Nat.le_refl _⟩
+    obtain ⟨hq2, hs2⟩ := ih (fun x hx => hT x (List.mem_cons_of_mem _ hx)) (roundStep acc a) hq1.1
+    refine ⟨⟨hq2.1, fun g => Nat.le_trans (hq2.2 g) (hq1.2 g)⟩, ?_⟩
+    rintro ⟨f, hf, hfp⟩
+    by_cases ha : acc.processed.contains a = true
+    · have hsame : roundStep acc a = acc := by unfold roundStep; rw [if_pos ha]
+      have hfl : f ∈ l := by
+        rcases List.mem_cons.mp hf with rfl | hfl
+        · rw [ha] at hfp; cases hfp
+        · exact hfl
+      rw [hsame] at hs2 ⊢
+      exact hs2 ⟨f, hfl, hfp⟩
+    · have ha' : acc.processed.contains a = false := by simpa using ha
+      refine ⟨a, hT a List.mem_cons_self, ?_⟩
+      exact Nat.lt_of_le_of_lt (hq2.2 a) (roundStep_strict U st0 acc a hpa ha')
 
 /-- a round in which everything to check is already processed changes nothing -/
-theorem round_idle (toCheck : List Path) (acc : Acc4) (h : ∀ f, f ∈ toCheck → acc.2.2.2.contains f = true) :
+theorem round_idle (toCheck : List Path) (acc : ScanAcc) (h : ∀ f, f ∈ toCheck → acc.processed.contains f = true) :
     toCheck.foldl roundStep acc = acc := by
   induction toCheck generalizing acc with
   | nil => rfl
@@ -279,12 +380,6 @@ theorem analyze_cd (pfx : Path) (cl : Bool) (st : Index) (f : Path) (v : Version
     obtain ⟨g1, g2⟩ := preState_cd cl st f v fr
     exact ⟨h1.trans g1, h2.trans g2⟩
 
-/-- analysis of one newly found module (`analyze_file_fresh` when it is readable) -/
-def analyzeNew (pfx : Path) (st : Index) (m : Path) : Index :=
-  match alookup st.disk m with
-  | some v => if readable v then (analyze pfx false st m v).1 else st
-  | none => st
-
 theorem analyzeNew_good (pfx : Path) (U : List Path) (st0 st : Index) (m : Path) (hm : m ∈ U) (h : Good U st0 st) :
     Good U st0 (analyzeNew pfx st m) := by
   unfold analyzeNew
@@ -311,24 +406,86 @@ theorem analyzeAll_good (pfx : Path) (U : List Path) (st0 : Index) (news : List 
     simp only [List.foldl_cons]
     exact ih _ (fun x hx => hn x (List.mem_cons_of_mem _ hx)) (analyzeNew_good pfx U st0 st m (hn m List.mem_cons_self) h)
 
+/-! ### analysis leaves the plugin marks alone -/
+
+theorem scanStep_pf (f : Path) (b : BodyScan) (st : Index) (r : NameRef) :
+    (scanStep f b st r).pluginFiles = st.pluginFiles := by
+  unfold scanStep
+  split <;> rfl
+
+theorem applyEvent_pf (pfx f : Path) (st : Index) (e : Event) :
+    (applyEvent pfx f st e).pluginFiles = st.pluginFiles := by
+  cases e with
+  | defn d => rfl
+  | usage u => rfl
+  | panic => rfl
+  | scan b =>
+    simp only [applyEvent]
+    generalize b.refs = refs
+    induction refs generalizing st with
+    | nil => rfl
+    | cons r rs ih =>
+      simp only [List.foldl_cons]
+      exact (ih (scanStep f b st r)).trans (scanStep_pf f b st r)
+
+theorem foldl_pf (pfx f : Path) (es : List Event) (st : Index) :
+    (es.foldl (applyEvent pfx f) st).pluginFiles = st.pluginFiles := by
+  induction es generalizing st with
+  | nil => rfl
+  | cons e es ih =>
+    simp only [List.foldl_cons]
+    exact (ih (applyEvent pfx f st e)).trans (applyEvent_pf pfx f st e)
+
+theorem preState_pf (cl : Bool) (st : Index) (f : Path) (v : Version) (fr : FileRec) :
+    (preState cl st f v fr).pluginFiles = st.pluginFiles := by
+  unfold preState
+  cases cl
+  · rfl
+  · simp only [if_true]
+    unfold cleanupDefs
+    split <;> rfl
+
+theorem analyze_pf (pfx : Path) (cl : Bool) (st : Index) (f : Path) (v : Version) :
+    (analyze pfx cl st f v).1.pluginFiles = st.pluginFiles := by
+  unfold analyze
+  cases v.parsed with
+  | none => rfl
+  | some fr =>
+    simp only
+    exact (foldl_pf pfx f fr.events (preState cl st f v fr)).trans (preState_pf cl st f v fr)
+
+theorem analyzeNew_pf (pfx : Path) (st : Index) (m : Path) : (analyzeNew pfx st m).pluginFiles = st.pluginFiles := by
+  unfold analyzeNew
+  cases alookup st.disk m with
+  | none => rfl
+  | some v =>
+    simp only
+    split
+    · exact analyze_pf pfx false st m v
+    · rfl
+
+theorem analyzeAll_pf (pfx : Path) (news : List Path) (st : Index) :
+    (news.foldl (analyzeNew pfx) st).pluginFiles = st.pluginFiles := by
+  induction news generalizing st with
+  | nil => rfl
+  | cons m ms ih =>
+    simp only [List.foldl_cons]
+    exact (ih _).trans (analyzeNew_pf pfx st m)
+
 /-! ### the loop -/
 
 theorem importScan_eq (pfx : Path) (fuel : Nat) (st : Index) (toCheck processed re : List Path) :
     importScan pfx (fuel + 1) st toCheck processed re =
       if toCheck.isEmpty then (st, re) else
-      let r := toCheck.foldl roundStep (([] : List Path), re, st, processed)
-      if r.1.isEmpty then (r.2.2.1, r.2.1) else
-      importScan pfx fuel (r.1.foldl (analyzeNew pfx) r.2.2.1) r.1 r.2.2.2 r.2.1 := by
+      let r := toCheck.foldl roundStep { news := [], re := re, st := st, processed := processed, rewalk := [] }
+      if r.news.isEmpty && r.rewalk.isEmpty then (r.st, r.re) else
+      importScan pfx fuel (r.news.foldl (analyzeNew pfx) r.st) (r.news ++ r.rewalk) r.processed r.re := by
   conv => lhs; rw [importScan]
-  unfold roundStep analyzeNew
-  rfl
 
-def mu (U processed : List Path) : Nat := (U.filter (fun g => !processed.contains g)).length
-
-/-- **more fuel than unprocessed files of the universe changes nothing** -/
+/-- **more fuel than the total weight of the universe changes nothing** -/
 theorem importScan_stable (pfx : Path) (U : List Path) (st0 : Index) :
     ∀ (n : Nat) (st : Index) (toCheck processed re : List Path), Good U st0 st → (∀ f, f ∈ toCheck → f ∈ U) →
-      mu U processed < n → ∀ m, n ≤ m →
+      mu U processed st.pluginFiles < n → ∀ m, n ≤ m →
       importScan pfx m st toCheck processed re = importScan pfx n st toCheck processed re := by
   intro n
   induction n with
@@ -342,45 +499,40 @@ theorem importScan_stable (pfx : Path) (U : List Path) (st0 : Index) :
       by_cases he : toCheck.isEmpty = true
       · simp only [he, if_true]
       · simp only [he]
-        generalize hr : toCheck.foldl roundStep (([] : List Path), re, st, processed) = r
-        by_cases hn : r.1.isEmpty = true
+        generalize hacc : ({ news := [], re := re, st := st, processed := processed, rewalk := [] } : ScanAcc) = acc0
+        have hpa0 : PA U st0 acc0 := by
+          rw [← hacc]
+          refine ⟨hgood, ?_, ?_⟩ <;> intro t ht <;> cases ht
+        obtain ⟨hq, hstrict⟩ := round_measure U st0 toCheck hT acc0 hpa0
+        generalize hr : toCheck.foldl roundStep acc0 = r at hq hstrict
+        by_cases hn : (r.news.isEmpty && r.rewalk.isEmpty) = true
         · simp only [hn, if_true]
         · simp only [hn]
-          -- the round's result satisfies the invariants
-          have hP4 : P4 U st0 processed r := by
-            rw [← hr]
-            apply ImpT.foldl_inv (P4 U st0 processed)
-            · exact ⟨⟨hgood, fun t ht => by cases ht⟩, fun x hx => hx⟩
-            · intro b a hb; exact roundStep_P4 U st0 processed b a hb
-          have hcov := round_covers toCheck (([] : List Path), re, st, processed)
-          rw [hr] at hcov
           -- some file to check was not processed yet, otherwise the round would have been idle
-          have hex : ∃ f, f ∈ toCheck ∧ processed.contains f = false := by
+          have hex : ∃ f, f ∈ toCheck ∧ acc0.processed.contains f = false := by
             apply Classical.byContradiction
             intro hno
-            have hall : ∀ f, f ∈ toCheck → processed.contains f = true := by
+            have hall : ∀ f, f ∈ toCheck → acc0.processed.contains f = true := by
               intro f hf
-              cases hc : processed.contains f with
+              cases hc : acc0.processed.contains f with
               | true => rfl
               | false => exact absurd ⟨f, hf, hc⟩ hno
-            have := round_idle toCheck (([] : List Path), re, st, processed) hall
+            have := round_idle toCheck acc0 hall
             rw [hr] at this
-            rw [this] at hn
+            rw [this, ← hacc] at hn
             exact hn rfl
-          obtain ⟨f, hfT, hfP⟩ := hex
-          have hdec : mu U r.2.2.2 < mu U processed := by
-            unfold mu
-            apply DfsT.filter_len_strict U _ _ _ f (hT f hfT)
-            · rw [hfP]; rfl
-            · have : f ∈ r.2.2.2 := hcov.2 f hfT
-              simp [this]
-            · intro g _ hg
-              simp only [Bool.not_eq_true', List.contains_eq_mem, decide_eq_false_iff_not] at hg ⊢
-              exact fun h => hg (hcov.1 g h)
+          obtain ⟨x, hxU, hxlt⟩ := hstrict hex
+          have hdec : mu U r.processed r.st.pluginFiles < mu U processed st.pluginFiles := by
+            have h0 : mu U processed st.pluginFiles = (U.map (wA acc0)).sum := by rw [← hacc]; rfl
+            rw [h0]
+            exact sum_lt U (wA r) (wA acc0) (fun g _ => hq.2 g) x hxU hxlt
           apply ih
-          · exact analyzeAll_good pfx U st0 r.1 r.2.2.1 hP4.1.2 hP4.1.1
-          · exact hP4.1.2
-          · omega
+          · exact analyzeAll_good pfx U st0 r.news r.st hq.1.2.1 hq.1.1
+          · intro f hf
+            rcases List.mem_append.mp hf with hf | hf
+            · exact hq.1.2.1 f hf
+            · exact hq.1.2.2 f hf
+          · rw [analyzeAll_pf]; omega
           · omega
 
 end ScanT
@@ -388,16 +540,15 @@ end ScanT
 open ScanT in
 /-- **C12 (the scan's import work-list loop terminates on every import graph).** Let `U` be any
     list containing the files on disk, the cached files and the files to check.  Any fuel larger
-    than the number of files of `U` not yet processed gives the same final index and the same
-    re-analysis list: each round that does not stop processes a new file of `U`, so circular and
-    self imports cannot keep the loop going. -/
+    than three times the number of files of `U` gives the same final index and the same
+    re-analysis list: a file is walked again only after it has been marked as a plugin file, which
+    happens once per file, so circular and self imports cannot keep the loop going. -/
 theorem C12_import_scan_fuel_irrelevant (pfx : Path) (U : List Path) (st : Index) (toCheck processed re : List Path)
     (hdisk : ∀ k, ahas st.disk k = true → k ∈ U) (hcache : ∀ k, ahas st.cache k = true → k ∈ U)
-    (hT : ∀ f, f ∈ toCheck → f ∈ U) (m : Nat) (hm : U.length + 1 ≤ m) :
-    Index.importScan pfx m st toCheck processed re = Index.importScan pfx (U.length + 1) st toCheck processed re := by
-  apply importScan_stable pfx U st (U.length + 1) st toCheck processed re ⟨rfl, hcache, hdisk⟩ hT _ m hm
-  unfold mu
-  have := List.length_filter_le (fun g => !processed.contains g) U
+    (hT : ∀ f, f ∈ toCheck → f ∈ U) (m : Nat) (hm : 3 * U.length + 1 ≤ m) :
+    Index.importScan pfx m st toCheck processed re = Index.importScan pfx (3 * U.length + 1) st toCheck processed re := by
+  apply importScan_stable pfx U st (3 * U.length + 1) st toCheck processed re ⟨rfl, hcache, hdisk⟩ hT _ m hm
+  have := mu_le U processed st.pluginFiles
   omega
 
 end PLS
